@@ -14,12 +14,18 @@ import tempfile
 VERIF = os.path.dirname(os.path.dirname(os.path.abspath(__file__)))
 
 MODES = {
+    'C02': ['bnd_tables'],
+    'C03': ['bnd_tables'],
+    'C05': ['bnd_tables'],
+    'C06': ['bnd_tables'],
     'C08': ['bnd_c08'],
     'C09': ['bnd_c09'],
     'C13': ['bnd_c13'],
     'C18': ['bnd_c18'],
 }
 STANDS_FOR = {
+    'bnd_tables': 'render_table_tree, RenderTable::new, tbody_to_render_tree, table_to_render_tree, render_table_row, append_columns_with_borders / append_vert_row as wholes: '
+                  'width bound, cell text preserved, box drawing consistent for regular tables (the slices of these functions under contract are proved separately)',
     'bnd_c08': 'render_tree_to_string (finalise glue), do_render_node Link arm, process_dom_node (links, empty-link removal), tree_map_reduce: '
                'reference [k] after the k-th link with content and exactly one list "[k]: target_k" at the end, in every container',
     'bnd_c09': 'do_render_node closures (start_X … children … end_X), new_sub_renderer call sites, tree_map_reduce: '
